@@ -189,6 +189,21 @@ def _quant_checks(r, P, gname, g, cg, root, dt, idx, graph):
                 r.evals += 1
                 r.transitions += 1
                 r.verdict((gname, name, q, T1, T2, "quant"), exp)
+                if got == exp and (T1, T2) == (labs[0], labs[-1]):
+                    # the same formula through the numeric-quantifier evaluation strategy (quantifier elimination)
+                    wrapped = f'exists int nq: (count(start, "{labs[0]}", nq) and {txt})'
+                    try:
+                        v2 = evaluate(wrapped, dt, g, graph=graph)
+                        got2 = True if v2.is_true() else False if v2.is_false() else "UNKNOWN"
+                    except CaseTimeout:
+                        raise
+                    except Exception as e:  # noqa
+                        got2 = f"EXC:{type(e).__name__}"
+                    r.evals += 1
+                    r.verdict((gname, name, q, "numq"), exp)
+                    if got2 != exp:
+                        r.viol(f"{name}/quantified-numeric-strategy/expected-{exp}-got-{got2}", f"{wrapped!r} on {tstr(root)!r}: reference {exp}, isla {got2}",
+                               dict(g=gname, tree=tjson(root), quant=txt, pred=name, T1=T1, T2=T2, q=q, entry="quant"), exp, got2)
                 if got != exp:
                     r.viol(
                         f"{name}/quantified/expected-{exp}-got-{got}",
@@ -197,6 +212,37 @@ def _quant_checks(r, P, gname, g, cg, root, dt, idx, graph):
                         exp,
                         got,
                     )
+
+
+def _root_arg_checks(r, gname, g, root, dt, idx, graph):
+    """the root (the constant) as predicate argument, plain and through the numeric-quantifier strategy"""
+    from isla.evaluator import evaluate
+
+    labs = sorted({st[0] for p, st in paths(root) if is_nt(st[0]) and p})
+    for T in labs[:3]:
+        nodes = [p for p, st in paths(root) if st[0] == T]
+        for name, order in (("inside", "a,start"), ("before", "start,a"), ("direct_child", "a,start"), ("same_position", "start,a"), ("after", "a,start")):
+            pa = (lambda p: (p, ())) if order == "a,start" else (lambda p: ((), p))
+            vals = [refpred.pred(name, root, *pa(p), idx=idx) for p in nodes]
+            if any(v is refpred.EITHER for v in vals):
+                continue
+            for q, agg in (("forall", all), ("exists", any)):
+                exp = agg(vals)
+                core = f"{q} {T} a in start: {name}({order})"
+                for txt in (core, f'exists int nq: (count(start, "{T}", nq) and {core})'):
+                    try:
+                        v = evaluate(txt, dt, g, graph=graph)
+                        got = True if v.is_true() else False if v.is_false() else "UNKNOWN"
+                    except CaseTimeout:
+                        raise
+                    except Exception as e:  # noqa
+                        got = f"EXC:{type(e).__name__}"
+                    r.evals += 1
+                    r.transitions += 1
+                    r.verdict((gname, name, q, "root-arg", "numq" if "nq" in txt else "plain"), exp)
+                    if got != exp:
+                        r.viol(f"{name}/root-as-argument/{'numeric-strategy' if 'nq' in txt else 'plain'}/expected-{exp}-got-{got}", f"{txt!r} on {tstr(root)!r}: reference {exp}, isla {got}",
+                               dict(g=gname, tree=tjson(root), quant=txt, pred=name, T1=T, T2="<start>", q=q, entry="rootarg"), exp, got)
 
 
 def run_chunk(chunk):
@@ -232,6 +278,7 @@ def run_chunk(chunk):
                                 continue
                             check_pair(r, P, gname, root, dt, idx, name, extra, a, b, "formula", graph=graph, grammar=g)
                     _quant_checks(r, P, gname, g, cg, root, dt, idx, graph)
+                    _root_arg_checks(r, gname, g, root, dt, idx, graph)
         except CaseTimeout:
             r.caps["tree_timeout_600s"] += 1
         r.sample({"grammar": gname, "tree": tstr(root), "nodes": len(allp), "pairs": len(allp) ** 2, "predicate_instances": len(inst)})
@@ -250,9 +297,13 @@ def replay(case):
     idx = refpred.prepost(root)
     P = _preds()
     graph = gg.GrammarGraph.from_grammar(g)
+    if case["entry"] == "rootarg":
+        r2 = Result(keep_all=True)
+        _root_arg_checks(r2, gname, g, root, dt, idx, graph)
+        return [v for v in r2.viols if v["case"].get("quant") == case["quant"]]
     if case["entry"] == "quant":
         # re-run only the label pair of the recorded case
-        r2 = Result()
+        r2 = Result(keep_all=True)
         _quant_checks(r2, P, gname, g, cg, root, dt, idx, graph)
         return [v for v in r2.viols if v["case"].get("quant") == case["quant"]]
     extra = tuple(case["extra"])
